@@ -559,6 +559,9 @@ class DavSession:
                 h = "/outside-the-namespace/" + urllib.parse.quote(n)
             elif cls == "coll":
                 h = urllib.parse.quote(w.url(base))
+            elif cls == "dotpath":     # a spelling with a dot segment / doubled slash in the path
+                bq = urllib.parse.quote(w.url(base))
+                h = bq + ["./", "/", "../" + base.rstrip("/").rsplit("/", 1)[-1] + "/"][len(n) % 3] + urllib.parse.quote(n)
             elif cls == "malformed":
                 h = "::" + n
             elif cls == "badutf":     # a percent-escape that is not valid UTF-8
